@@ -610,7 +610,8 @@ type job struct {
 }
 
 // length-3 blocks are enumerated over this core of the alphabet (near-duplicates of the other templates dropped)
-// and not on the fork block itself; blocks of <= 2 transactions use the whole alphabet on every parent state.
+// on the two parent states in which the contract exists; blocks of <= 2 transactions use the whole alphabet on
+// every parent state.
 var coreNames = []string{"xferA", "poorA", "lowA", "highB", "mkA", "mkRevB", "setB", "clrA", "revB", "killA", "stakeA", "newValB", "startB", "exitV3"}
 
 func enumerate(pres []*prestate, maxLen int) []job {
@@ -649,8 +650,8 @@ func enumerate(pres []*prestate, maxLen int) []job {
 		rec(nil)
 		for _, s := range seqs {
 			for _, p := range pres {
-				if l >= 3 && p.Kind == "galaxias" && p.Name == "genesis" {
-					continue
+				if l >= 3 && p.Name == "genesis" {
+					continue // length 3 only on the parent states in which the contract exists
 				}
 				jobs = append(jobs, job{p, s})
 			}
@@ -740,7 +741,7 @@ func main() {
 	maxLen := 2
 	dl := 75 * time.Second
 	if r.Thorough() {
-		maxLen, dl = 3, 13*time.Minute
+		maxLen, dl = 3, 14*time.Minute
 	}
 	r.SetDeadline(dl)
 
@@ -958,7 +959,7 @@ func main() {
 	r.Set("skip_reasons_seen", sr)
 	lenRule := ""
 	if maxLen >= 3 {
-		lenRule = " (length 3: over the " + fmt.Sprint(len(coreNames)) + "-template core " + strings.Join(coreNames, ",") + ", not on the fork block)"
+		lenRule = " (length 3: over the " + fmt.Sprint(len(coreNames)) + "-template core " + strings.Join(coreNames, ",") + ", on the two deployed parent states only)"
 	}
 	r.Set("rule", "blocks = every sequence of <= "+fmt.Sprint(maxLen)+" transaction templates over the "+fmt.Sprint(len(alphabet))+"-template alphabet (txs.go)"+lenRule+" x parent states "+strings.Join(pn, ", ")+
 		"; the enumerated block carries the template transactions in template order on the header the real proposer produced; every block is executed by ApplyBlock on fresh real node stacks under the variants "+
